@@ -402,7 +402,7 @@ def call_once(ctx, pat, mode, attempt):
     for pname, acls, _opt, default in ctx.kw:
         if pname in pat["attrs"] or default is inspect.Parameter.empty:
             val = given_value(acls, pname, default, ctx.opname, max(1, pat["varlen"]), pat.get("variant", 0))
-            kwargs[pname] = val
+            kwargs[pname] = (x for x in val) if pat.get("variant") == 5 and acls in ("ints", "floats", "strs") else val
             given.append((pname, render_given(val, ctx.schema_attr_type.get(pname), pname, acls)))
     attempt["args"], attempt["given"] = render_args(args_desc), given
     patched = {}
@@ -536,6 +536,10 @@ def patterns(ctx, rng=None, n_random=0):
     for a, acls, _o, d in ctx.kw:
         if d is not inspect.Parameter.empty and acls in ("ints", "floats", "strs"):
             add("attr-empty-list:" + a, [], 1, [a], variant=2)
+    for a, acls, _o, d in ctx.kw:
+        if d is not inspect.Parameter.empty and acls in ("ints", "floats", "strs"):
+            # the value handed over as a ONE-SHOT iterable (the parameters are annotated Iterable[...]): it arrives all the same
+            add("attr-one-shot-iterable:" + a, opt_inputs, 1, [a], variant=5)
     for a, acls, _o, d in ctx.kw:
         if d is not inspect.Parameter.empty and acls in ("float", "floats"):
             # two calls in a row whose values are EQUAL as Python objects but are different attributes (0.0, then -0.0)
